@@ -155,19 +155,47 @@ def compiled_mode_rules(ctx, rule="C06.h"):
             c = p.calls(r"CompiledDfa::try_from_patterns$")
             ctx.ob(rule, "compiled-mode-automaton-from-own-patterns", len(c) == 1 and S.fstr(ex.deref_val(p, c[0][3][0])) == "scanner_mode.patterns", "dfa := try_from_patterns(%s)" % (S.fstr(c[0][3][0])[:60] if c else None), sm.loc())
     ctx.floor(rule, "Ok paths of try_from_scanner_mode", n, 1)
-    # ScannerMode::new stores the given transitions in order (ids are transparent wrappers)
+    # ScannerMode::new stores the given patterns and transitions, all of them, in the given order (ids are transparent wrappers):
+    # each stored list is filled from the corresponding argument — collected or pushed in a loop — one element per given
+    # element, none skipped, the transitions mapped by (t, m) -> (id(t), id(m))
+    from .common import list_fill
     nw = F.fn(r"scanner_mode::ScannerMode::new$")
     ctx.analysed_fn(nw)
-    calls = [M.call_name(t) for bb, t in nw.calls()]
-    bad = [c for c in calls if re.search(r"Iterator>::(rev|skip|take|filter|step_by|skip_while|take_while)\b|::(sort\w*|dedup\w*|reverse|retain)$", c) and "windows" not in c]
-    ctx.ob(rule, "ScannerMode::new-keeps-the-given-transitions", not bad, "reordering/filtering calls in ScannerMode::new: %s" % [M.short_name(c) for c in bad], nw.loc())
-    for c in F.closures_of(nw):
-        if c.argc == 2 and len(c.j["locals"]) > 2 and "(usize, usize)" in c.j["locals"][2]["ty"]:
-            ex2, ps = run_fn(c, F, Model(), inline=r"ids::(TerminalID|ScannerModeID)::new$")
-            for q in ret_paths(ps):
-                r = q.end[1]
-                ok = r[0] == "tuple" and S.fstr(r[1][0]).endswith(".0") and S.fstr(r[1][1]).endswith(".1")
-                ctx.ob(rule, "ScannerMode::new-maps-(token type, mode)-in-that-order", ok, "pair := %s" % S.fstr(r)[:80], c.loc())
+    ex, paths = run_fn(nw, F, Model(), desugar=r".|collect", inline=r"ids::(TerminalID|ScannerModeID)::new$")
+
+    def strip(x):
+        while x[0] in ("cast", "adt") or (x[0] == "app" and re.search(r"ids::(TerminalID|ScannerModeID)::new$|From<.*>>::from$|Into<.*>>::into$", str(x[1])) and len(x[2]) == 1):
+            x = x[2] if x[0] == "cast" else (x[3][0] if x[0] == "adt" else x[2][0])
+        return x
+
+    def proj(item, i):
+        if item[0] == "tuple":
+            return item[1][i]
+        return ("field", item, str(i))
+    nret = 0
+    for p in ret_paths(paths):
+        r = p.end[1]
+        if not (r[0] == "adt" and len(r[3]) == 3):
+            ctx.ob(rule, "ScannerMode::new-keeps-the-given-transitions", False, "returns %s" % S.fstr(r)[:100], nw.loc())
+            continue
+        nret += 1
+        for what, v, param, ty in (("patterns", r[3][1], "patterns", r"pattern::Pattern"), ("transitions", r[3][2], "mode_transitions", r"TerminalID, internal::ids::ScannerModeID")):
+            lf = list_fill(ex, paths, nw, v, ty)
+            if lf is None:
+                ctx.ob(rule, "ScannerMode::new-keeps-the-given-" + what, False, "%s := %s: neither collected from nor pushed in a loop over the argument" % (what, S.fstr(v)[:100]), nw.loc())
+                continue
+            ok = lf["base"] == [param] and lf["skipped"] == 0 and not lf["other"] and len(lf["elements"]) >= 1
+            ctx.ob(rule, "ScannerMode::new-keeps-the-given-" + what, ok,
+                   "%s filled (%s) from %s: %d element path(s), %d iteration(s) adding nothing, other operations %s" % (what, lf["form"], lf["base"], len(lf["elements"]), lf["skipped"], lf["other"]), nw.loc())
+            for item, el, q in lf["elements"]:
+                el = ex.deref_val(q, el) if el[0] == "ref" else el
+                if what == "patterns":
+                    okel = strip(el) == item
+                else:
+                    okel = el[0] == "tuple" and len(el[1]) == 2 and strip(el[1][0]) == proj(item, 0) and strip(el[1][1]) == proj(item, 1)
+                ctx.ob(rule, "ScannerMode::new-maps-(token type, mode)-in-that-order" if what == "transitions" else "ScannerMode::new-stores-each-pattern-unchanged", okel,
+                       "element := %s for the given %s" % (S.fstr(el)[:80], S.fstr(item)[:40]), nw.loc())
+    ctx.floor(rule, "return paths of ScannerMode::new", nret, 1)
     # the automaton of the mode is built from the whole pattern list, unchanged
     cp = F.fn(r"CompiledDfa::try_from_patterns$")
     ctx.analysed_fn(cp)
